@@ -23,7 +23,18 @@ pub fn read_line_with_eol<'buf, T: BufRead>(
     match eol {
         // read_line is more optimized/safe than read_until for strings
         EOL::Newline => reader.read_line(buffer),
-        EOL::Zero => unsafe { reader.read_until(eol as u8, buffer.as_mut_vec()) },
+        EOL::Zero => unsafe { reader.read_until(eol as u8, buffer.as_mut_vec()) }.and_then(|n| {
+            // read_line refuses text that is not UTF-8; do the same here, so that
+            // -z behaves like newline mode and the String never holds other bytes
+            if std::str::from_utf8(buffer.as_bytes()).is_err() {
+                unsafe { buffer.as_mut_vec() }.clear();
+                return Err(std::io::Error::new(
+                    std::io::ErrorKind::InvalidData,
+                    "stream did not contain valid UTF-8",
+                ));
+            }
+            Ok(n)
+        }),
     }
     .map(|u| if u == 0 { None } else { Some(buffer) })
     .transpose()
